@@ -78,8 +78,11 @@ def run_case(seed, tier, rec, st):
         wcfg = config_fn(rng)
         wcfg.pop("_aliases", None)
         mixin = rng.random() < 0.7
+        wfield = {"n": "x", "t": t}
+        if wcfg.get("serialize_by_alias") == "True" or wcfg.get("allow_deserialization_not_by_alias") == "True":
+            wfield["alias"] = "AX"          # the wrapper's own member is renamed on the wire (whatever value it holds, None included)
         fam.add({"k": "dc", "name": wname, "bases": [], "mixin": "DataClassDictMixin" if mixin else None,
-                 "fields": [{"n": "x", "t": t}], "config": wcfg}, tg.value_maker)
+                 "fields": [wfield], "config": wcfg}, tg.value_maker)
         W = fam.get(wname)
         if not mixin:
             wenc, wdec = BasicEncoder(W), BasicDecoder(W)
